@@ -895,7 +895,9 @@ class Interp:
                         for (kind, val), t4 in self.call(init, Ref(oid), [GEN], {}, t3, stack + 1):
                             res.append((Ref(oid) if kind == 'ret' else val, e2, t4))
                         return res
-                    if self.takes_tokens(argvals, kwvals) or t.func.module.name == 'penman._parse' or \
+                    lexer_helper = t.func.module.name == 'penman._lexer' and t.func.cls is None and t.func.fq != self.lex_fq \
+                        and not any(isinstance(x, (ast.Yield, ast.YieldFrom)) for x in walk_local(t.func.node))
+                    if self.takes_tokens(argvals, kwvals) or t.func.module.name == 'penman._parse' or lexer_helper or \
                             (t.func.cls is not None and t.func.cls.fq == self.tokit.fq):
                         selfv = None
                         for (kind, val), t3 in self.call(t.func, selfv, argvals, kwvals, t2, stack + 1):
